@@ -1358,7 +1358,7 @@ def c08_surroundings(ctx, res, d):
     kinds = ["stdout_full", "stdout_reader_gone", "streams_closed", "dest_mtime_in_the_future", "tmpdir_missing", "tmpdir_other_fs", "stdout_is_the_destination_dir",
              "source_in_another_directory", "256_failing_statements", "512_failing_statements", "255_failing_statements",
              "destination_locked_elsewhere", "destination_open_elsewhere", "reference_65500_words_away", "reference_minus_65300_words_away"] + \
-            ["failure_behind_a_label_named:" + n for n in _DIRECTIVE_LIKE_LABELS]
+            ["failure_behind_a_label_named:" + n for n in _DIRECTIVE_LIKE_LABELS] + ["valid_program_with_a_label_named:" + n for n in _DIRECTIVE_LIKE_LABELS[:8]]
     for kind in kinds:
         for pre in (True, False):
             base = os.path.join(d, "sur_%s_%d" % (kind, pre))
@@ -1426,8 +1426,12 @@ def c08_surroundings(ctx, res, d):
                 # names of directives without their dot, and words other assemblers reserve: labels here, and what
                 # follows them is assembled like everything else - the statement that cannot be emitted included
                 nm = kind.split(":", 1)[1]
-                _write(os.path.join(base, "p.asm"), "lea r0 %s\nputs\nhalt\n%s .stringz \"x\"\nld r1 far\n.blkw #300\nfar .fill x1\n" % (nm, nm))
+                # (the label first stands in front of a statement, then - in half of the cases - is referred to)
+                _write(os.path.join(base, "p.asm"), "and r0 r0 #0\n%s add r0 r0 #1\n%sld r1 far\n.blkw #300\nfar .fill x1\n" % (nm, "brn %s\n" % nm if len(nm) % 2 else ""))
                 expect_ok = False
+            elif kind.startswith("valid_program_with_a_label_named:"):
+                nm = kind.split(":", 1)[1]
+                _write(os.path.join(base, "p.asm"), src.replace("halt\n", "%s halt\n" % nm, 1))
             elif kind.endswith("_failing_statements"):
                 n_bad = int(kind.split("_")[0])
                 _write(os.path.join(base, "p.asm"), "ld r0 far\n" * n_bad + ".blkw #400\nfar halt\n")
